@@ -15,7 +15,7 @@ package nodeslo
 //
 // Deliberately NOT generated (whether they "set a field" / "can be parsed" is a matter of taste, so the check
 // takes no side): explicit JSON nulls, "" for omitempty string fields, explicit empty lists, an empty-string or
-// "null" section text, unknown keys, invalid label selectors, the node-bandwidth annotation.
+// "null" section text, unknown keys, invalid label selectors, the node-bandwidth annotation ON AN OBSERVED NODE.
 
 import (
 	"encoding/json"
@@ -37,6 +37,7 @@ import (
 	"sigs.k8s.io/controller-runtime/pkg/client/fake"
 
 	"github.com/koordinator-sh/koordinator/apis/configuration"
+	"github.com/koordinator-sh/koordinator/apis/extension"
 	slov1alpha1 "github.com/koordinator-sh/koordinator/apis/slo/v1alpha1"
 	"github.com/koordinator-sh/koordinator/pkg/util/sloconfig"
 	vu "github.com/koordinator-sh/koordinator/pkg/verifutil"
@@ -551,6 +552,14 @@ func c20Unparsed(st string) *c20SecAbs { return c20Norm(&c20SecAbs{St: st}) }
 
 func c20Obs(r *NodeSLOReconciler, nodes map[string]map[string]string) map[string]interface{} {
 	obs := map[string]interface{}{}
+	// Other nodes are reconciled in between: every observed node has a twin with the same labels that carries a
+	// node-bandwidth annotation of its own. What the twins get is not recorded (whether the annotation is a "layer" is
+	// left open); what they are configured with must not show in the observed nodes (frame condition).
+	for name, lbl := range nodes {
+		twin := &corev1.Node{ObjectMeta: metav1.ObjectMeta{Name: name + "-twin", Labels: lbl,
+			Annotations: map[string]string{extension.AnnotationNodeBandwidth: "99M"}}}
+		_, _ = r.getNodeSLOSpec(twin, nil)
+	}
 	for name, lbl := range nodes {
 		node := &corev1.Node{ObjectMeta: metav1.ObjectMeta{Name: name, Labels: lbl}}
 		spec, err := r.getNodeSLOSpec(node, nil)
